@@ -445,9 +445,13 @@ def hoist_literals(src, rng, p=(1, 3)):
     except UnicodeDecodeError:
         return src
     out, n = [], 0
+    whole = True          # the previous statement is complete: this line starts a new one (a `let` may only go between statements)
     for l in lines:
         st = l.strip()
-        if not st.endswith(';') or st.startswith(('import ', '#', '//')) or '#' in l or '//' in l or l.count('"') % 2:
+        starts = whole
+        if st and not st.startswith(('#', '//')):
+            whole = st.endswith(';') and '#' not in l and '//' not in l
+        if not starts or not st.endswith(';') or st.startswith(('import ', '#', '//')) or '#' in l or '//' in l or l.count('"') % 2:
             out.append(l); continue
         lets = []
         def rep(m):
